@@ -310,8 +310,8 @@ End Build.
 
 (* ------------------------------------------------------------------------- *)
 (* frame lemmas of the two parse methods                                        *)
-Lemma lr_parse_frame sub inp fuel pos st st' :
-  snd (lr_parse_inst sub inp fuel pos st) = snd (lr_parse_inst sub inp fuel pos st').
+Lemma lr_parse_frame sub inp fuel budget pos st st' :
+  snd (lr_parse_inst sub inp fuel budget pos st) = snd (lr_parse_inst sub inp fuel budget pos st').
 Proof. reflexivity. Qed.
 
 Lemma lr_parse_never_attribute_error (st : lr_inst) :
@@ -325,6 +325,11 @@ Proof. destruct path as [f|p|l a]; destruct clear; reflexivity. Qed.
 Lemma glr_parse_no_attribute_error path clear s :
   snd (glr_parse_inst path clear s) <> GOAttributeError.
 Proof. destruct path as [f|p|l a]; destruct clear; cbn; discriminate. Qed.
+
+Lemma glr_parse_frame_both path clear s s' :
+  snd (glr_parse_inst path clear s) = snd (glr_parse_inst path clear s') /\
+  snd (glr_parse_inst path clear s) <> GOAttributeError.
+Proof. split; [apply glr_parse_frame|apply glr_parse_no_attribute_error]. Qed.
 
 (* after a run that was not cut short every transient field is gone again *)
 Lemma glr_transient_removed path s f :
@@ -354,7 +359,7 @@ Section History.
     induction h as [|o h IH]; intros w Hinv Hc; [exact Hinv|].
     cbn [history_clean] in Hc. apply andb_true_iff in Hc. destruct Hc as [Ho Hc].
     unfold run_history. cbn [fold_left]. apply IH; [|exact Hc].
-    destruct o as [inp fuel pos|inp|glr slr ps pse]; cbn [step_world w_g]; try exact Hinv.
+    destruct o as [inp fuel budget pos|inp|glr slr ps pse]; cbn [step_world w_g]; try exact Hinv.
     destruct (parser_init_inv G core sr rr aug0 (w_g w) (mkP glr slr ps pse) Hinv) as [_ I].
     apply I. unfold build_clean in Ho.
     destruct (snd (parser_init G core sr rr (w_g w) (mkP glr slr ps pse))) as [x|ex]; [discriminate|].
@@ -365,14 +370,14 @@ Section History.
     ginv G aug0 (w_g w0) -> clean w0 h = true ->
     let w := runh w0 h in
     gs_aug (w_g w) = aug0 /\
-    (forall inp fuel pos, probe_lr sub w inp fuel pos = probe_lr sub w0 inp fuel pos) /\
+    (forall inp fuel budget pos, probe_lr sub w inp fuel budget pos = probe_lr sub w0 inp fuel budget pos) /\
     (forall inp, probe_glr glr_run w inp = probe_glr glr_run w0 inp) /\
     (forall o, probe_build G core sr rr w o
                = snd (parser_init G core sr rr (mkG aug0 None) o)).
   Proof.
     intros Hinv Hc w. pose proof (history_ginv aug0 h w0 Hinv Hc) as Hw. fold w in Hw.
     split; [exact (proj1 Hw)|]. split; [|split].
-    - intros inp fuel pos. apply lr_parse_frame.
+    - intros inp fuel budget pos. apply lr_parse_frame.
     - intros inp. apply glr_parse_frame.
     - intros o. unfold probe_build.
       apply (proj1 (parser_init_inv G core sr rr aug0 (w_g w) o Hw)).
